@@ -80,6 +80,28 @@ class Script(System):
         self.out = o
 
 
+class Setup(System):
+    """A one-shot system: does its work in its first timestep and unregisters itself (the usual `clean_up()` idiom)."""
+
+    def __init__(self, model):
+        super().__init__("setup", model, priority=0)
+
+    def execute(self):
+        self.clean_up()
+
+
+class Extra(System):
+    """One of several systems sharing the script's priority; each draws once per timestep and adds to the script's observation
+    (so the order among equal priorities - registration order - shows in the trajectory)."""
+
+    def __init__(self, model, sid):
+        super().__init__(sid, model, priority=0)
+
+    def execute(self):
+        m = self.model
+        m.systems["script"].out.setdefault("extra", []).append([self.id, m.random.randint(0, 10 ** 6)])
+
+
 class Hook(System):
     """Runs first in every timestep; the driver may hand it something to do (e.g. step ANOTHER model from inside this one)."""
 
@@ -118,7 +140,12 @@ class StochModel(Model):
         for i in range(n):
             self.add_one("a%d" % i, tag=i % 2, comp=(i % 3 != 0))
         self.systems.add_system(Hook(self))
+        if "setup" in mix.split(","):
+            self.systems.add_system(Setup(self))
         self.systems.add_system(Script(self, mix.split(",")))
+        if "setup" in mix.split(","):
+            for sid in ("extra", "aux", "zeta", "b2"):
+                self.systems.add_system(Extra(self, sid))
         self.systems.add_system(AgentCollector(self, lambda a: (len(a.id) * 10 + a.tag) if a.tag else None, id="ac", priority=-1))
         self.systems.add_system(Traj("traj", self, priority=-2))
 
@@ -288,7 +315,10 @@ CONFIGS = [{"kind": k, "n": n, "mix": mix}
 SPATIAL = [{"kind": k, "n": n, "mix": mix}
            for k in ("tgrid", "tspace", "grid", "space")
            for n, mix in ((6, "near,move"), (5, "pick,near,move,churn"))]
-CONFIGS = CONFIGS + SPATIAL
+# a one-shot system that unregisters itself, and several systems of one priority whose order shows in the trajectory
+SETUPS = [{"kind": k, "n": 4, "mix": "setup,pick,shuffle,churn"} for k in ("plain", "grid", "tspace")]
+HASHCFG = SPATIAL + SETUPS
+CONFIGS = CONFIGS + SPATIAL + SETUPS
 
 
 def schedule_from_walk(walk):
